@@ -54,7 +54,7 @@ func runC13(r *vf.Run) {
 		r.Inconclusive("updog binary not built")
 		return
 	}
-	nds := r.Pick(2, 8)
+	nds := r.Pick(3, 10)
 	for di := 0; di < nds; di++ {
 		did := fmt.Sprintf("ds%d", di)
 		if !r.Want(did) {
